@@ -43,11 +43,12 @@ class Dev:
     """Deviation switches for one evaluation of the model."""
 
     def __init__(self, waiver=False, fmt_unknown=True, curated=None, formats=("uuid", "date-time"),
-                 nested_bool_conflation=False, custom=None, mult_disputed=True, ecma=False):
+                 nested_bool_conflation=False, custom=None, mult_disputed=True, ecma=False, reduced_default=False):
         self.waiver = waiver
         # patterns read as ECMA 262 (Draft 6) instead of Python's `re` - used by C01 only: the other checks
         # compare statham with statham-made images, where the dialect cancels out
         self.ecma = ecma
+        self.reduced_default = reduced_default
         # verdict for a multipleOf on which binary floating point, exact arithmetic on the doubles and decimal
         # arithmetic on the shortest representation do not all agree (Draft 6 is silent on precision)
         self.mult_disputed = mult_disputed
@@ -124,6 +125,32 @@ def pattern_search(pattern, string, dev):
     if getattr(dev, "ecma", False):
         return re.search(ecma_pattern(pattern), string)
     return re.search(pattern, string)
+
+
+def reduces_to_default(schema, root, depth=0):
+    """Does this schema consist of ONE composition keyword with ONE non-trivial branch (which statham's
+    normal form reduces to that branch's element) whose branch declares a default?  Used only to attribute
+    known finding F44 (the reduction makes the branch's default the default of the enclosing schema)."""
+    if not isinstance(schema, dict) or depth > 6:
+        return False
+    keys = set(schema) - {"title", "description", "definitions", "_x_autotitle", "$id", "$schema"}
+    if len(keys) != 1:
+        return False
+    key = next(iter(keys))
+    if key not in ("anyOf", "oneOf", "allOf") or not isinstance(schema[key], list):
+        return False
+    branches = [b for b in schema[key] if b is not True and b != {}]
+    if len(branches) != 1:
+        return False
+    branch = branches[0]
+    hops = 0
+    while isinstance(branch, dict) and "$ref" in branch and hops < 10:
+        try:
+            branch = resolve_pointer(root, branch["$ref"])
+        except Exception:  # pylint: disable=broad-except
+            return False
+        hops += 1
+    return isinstance(branch, dict) and ("default" in branch or reduces_to_default(branch, root, depth + 1))
 
 
 def multiple_readings(value, multiple):
@@ -338,7 +365,8 @@ def valid(schema, value, root=None, dev=None, depth=0):
                     declared = resolve_pointer(root, declared["$ref"])
                 except Exception:  # pylint: disable=broad-except
                     pass
-            if isinstance(declared, dict) and "default" in declared:
+            if isinstance(declared, dict) and ("default" in declared or (
+                    getattr(dev, "reduced_default", False) and reduces_to_default(declared, root))):
                 dev.used_waiver = True
                 occurrence = dev.waiver_seen
                 dev.waiver_seen += 1
